@@ -578,10 +578,19 @@ def b_expand(tier):
                    "polynomial inputs (sums, products, non-negative integer powers of variables and constants): no sum beneath a product or integer power, pairwise distinct "
                    "monomials (=> polynomials equal as functions expand to equal term multisets); also commutative=False", bound="as flatten (polynomial + rational pools)",
                    functions=["DistributeMapper.map_sum/map_product/map_power/map_quotient", "distribute", "TermCollector", "CommutativeConstantFoldingMapper"])
+    groups = {}
     for e in poly_pool(tier) + rational_pool(tier) + zero_power_pool(tier) + generic_pool(tier):
         r = outcome.run(lambda: distribute(e))
         b.case(("expand", repr(e)), sample=dict(expr=repr(e)))
         cause = _expand_cause(e)
+        if r[0] == "val" and in_poly_fragment(e):
+            try:
+                q_ = rf(e)
+                if len(q_.d.t) == 1 and list(q_.d.t) == [()]:       # a polynomial: constant denominator
+                    dc = q_.d.t[()]
+                    groups.setdefault(repr(sorted((m, c / dc) for m, c in q_.n.t.items())), []).append((e, r[1]))
+            except (Undefined, NotFragment):
+                pass
         if r[0] != "val":
             b.fail(Failure("expand", f"what=expand-raised{cause} expr={e!r}", dict(kind="expand", expr=repr(e)), expected="an expanded expression", actual=outcome.describe(r)[:200],
                            functions=["DistributeMapper"]))
@@ -603,6 +612,35 @@ def b_expand(tier):
         else:
             b.fail(Failure("expand", f"what=expand-noncommutative-raised{cause} expr={e!r}", dict(kind="expand-nc", expr=repr(e)), expected="an expression", actual=outcome.describe(r2)[:200],
                            functions=["DistributeMapper"]))
+    # polynomials equal as functions expand to sums with equal term multisets (terms compared up to the order of their factors)
+    import pymbolic.primitives as p
+
+    def tkey(t):
+        if isinstance(t, p.Product):
+            return ("P", tuple(sorted(repr(tkey(c)) for c in t.children)))
+        if isinstance(t, p.Power):
+            return ("W", repr(tkey(t.base)), repr(t.exponent))
+        return repr(t)
+
+    def multiset(res):
+        return tuple(sorted(repr(tkey(t)) for t in (res.children if isinstance(res, p.Sum) else (res,))))
+    for key, members in groups.items():
+        if len(members) < 2:
+            continue
+        # results that are sums of >= 2 terms have been through the term collector; a result that is a single term has not
+        forms, forms_single = {}, {}
+        for e, res in members:
+            is_sum = isinstance(res, p.Sum) and len(res.children) > 1
+            (forms if is_sum else forms_single).setdefault(multiset(res), (e, res))
+        b.case(("expand-equal-polynomials", key[:80]), nontrivial=True, sample=dict(inputs=len(members)))
+        if len(forms) > 1 or (forms and forms_single):
+            (e1, r1), (e2, r2) = (list(forms.values()) + list(forms_single.values()))[:2]
+            b.fail(Failure("expand", f"what=equal-polynomials-expand-differently a={e1!r} b={e2!r}"[:400], dict(kind="expand-pair", a=repr(e1), b=repr(e2)), expected="equal term multisets",
+                           actual=f"{r1!r} vs {r2!r}"[:250], functions=["DistributeMapper.map_product", "TermCollector"]))
+        elif len(forms_single) > 1:
+            (e1, r1), (e2, r2) = list(forms_single.values())[:2]
+            b.fail(Failure("expand", f"cause=single-term-result-not-normalised what=equal-polynomials-expand-differently a={e1!r} b={e2!r}"[:400], dict(kind="expand-pair", a=repr(e1), b=repr(e2)),
+                           expected="equal term multisets", actual=f"{r1!r} vs {r2!r}"[:250], functions=["DistributeMapper.map_product", "DistributeMapper.map_power"]))
     return b
 
 
